@@ -1265,6 +1265,9 @@ class QueryBuilder(Selectable, Term):  # type:ignore[misc]
             return Joiner(self, item, how, type_label="table")
 
         elif isinstance(item, Selectable):
+            if isinstance(item, _SetOperation) and item.alias is None:
+                # a joined set operation needs a name as much as a joined query does
+                self._tag_subquery(item)  # type:ignore[arg-type]
             return Joiner(self, item, how, type_label="subquery")
 
         raise ValueError("Cannot join on type '%s'" % type(item))
